@@ -127,6 +127,26 @@ func vRunOnReceivingNode(hist []VEntry, e VEntry) string {
 	return vThrRe.ReplaceAllString(vObserve(&st, in.Srv), " thr=X")
 }
 
+// vRunOnLeader executes the history the way the LEADER does: between any two entries the expiry loop of main()
+// may have run ExpireSessions (here with the wall clock far ahead, so that it proposes the deletion of every
+// session it may propose at all).  What it returns goes into raft and is not part of this history (proposed,
+// not yet committed); the call itself must not leave a trace in the state machine, because followers never
+// make it.
+func vRunOnLeader(hist []VEntry, e VEntry) string {
+	in := VerifNewInst()
+	sweep := func(h VEntry) {
+		rt.SetFixedNow(h.UnixNano + int64(400*24*time.Hour))
+		in.Srv.ExpireSessions()
+		rt.SetFixedNow(0)
+	}
+	for _, h := range hist {
+		in.Apply(h)
+		sweep(h)
+	}
+	st := in.Apply(e)
+	return vObserve(&st, in.Srv)
+}
+
 func TestVerifC01(t *testing.T) {
 	shard, _ := strconv.Atoi(os.Getenv("VERIF_SHARD"))
 	nshards, _ := strconv.Atoi(os.Getenv("VERIF_NSHARDS"))
@@ -262,6 +282,11 @@ func TestVerifC01(t *testing.T) {
 		// the node that received the POSTs (handler-side calls that are not part of the log)
 		if rn := vRunOnReceivingNode(hist, e); rn != vThrRe.ReplaceAllString(base.obs, " thr=X") {
 			report(sc, hist, e, "result depends on which node received the client's POST ["+cmd+"]", fmt.Sprintf("entry %s: on the node whose HTTP handler called ThrottleUntil for the posting sessions the result differs: %s", e.String(), firstDiff(vThrRe.ReplaceAllString(base.obs, " thr=X"), rn)))
+		}
+		res.Executions++
+		// the leader (the expiry sweep of main() runs between entries)
+		if ld := vRunOnLeader(hist, e); ld != base.obs {
+			report(sc, hist, e, "result depends on whether the node ran the expiry sweep (leader) ["+cmd+"]", fmt.Sprintf("entry %s: on a node that called ExpireSessions between the entries the result differs: %s", e.String(), firstDiff(base.obs, ld)))
 		}
 		res.Executions++
 		// single deviations
